@@ -58,7 +58,9 @@ pub fn forgery_matrix(w: &World, spec: &Spec, full: bool) -> (Vec<Viol>, u64) {
     let appt = Appointment::new(l1, make_blob(1, Blob::Valid), 42);
     let appt_other_tsd = Appointment::new(l1, make_blob(1, Blob::Valid), 43);
     let appt_other_loc = Appointment::new(l2, make_blob(2, Blob::Valid), 42);
-    let get_msg = |l: &Locator| format!("get appointment {l}").into_bytes();
+    // (the documented message: "get appointment " followed by the 32 hex digits of the locator - spelled out here, not taken
+    // from the implementation's Display)
+    let get_msg = |l: &Locator| format!("get appointment {}", hex::encode(l.to_vec())).into_bytes();
     let sub_msg = b"get subscription info".to_vec();
 
     let mut bad = |what: String, detail: String, out: &mut Vec<Viol>| {
